@@ -48,12 +48,15 @@ DEFINES = ['CV_SP_POINTEE FI', 'CV_SP_DISPOSE fi_dtor']
 ACCESS_T = {'SPFI_ACCESS': 'std::__shared_ptr_access<%s, %s, false, false>' % (FIQ, POL)}
 MAKE_T = {'ALLOCV': 'std::allocator<void>'}
 
+ABSTRACT = ('sp_arrow', 'sp_make_default', 'sp_make_pfn', 'aw_subscribe', 'promise_dtor', 'env_promise_fn', 'env_future_fn', 'promise_set_exc', 'spbool_dtor', 'fut_wait')
 def unit(name, alias, uses=(), extra_types=None, extra_roots=(), extra_boundary=(), extra_globals=None, **kw):
-    """alias: function under contract (enforced on its real body). uses: further aliases the unit needs (model callees etc.)."""
-    names = {a: N[a] for a in (alias, 'fi_dtor') + tuple(uses)}
+    """alias: function under contract (enforced on its real body). uses: further aliases the unit needs; abstract callees (model /
+    environment stubs) go to names_opt, so that a code change that stops calling one fails a postcondition, not the extraction."""
+    names = {a: N[a] for a in (alias, 'fi_dtor') + tuple(u for u in uses if u not in ABSTRACT)}
+    names_opt = {a: N[a] for a in uses if a in ABSTRACT}
     t = dict(TYPES); t.update(extra_types or {})
     g = dict(GLOBALS); g.update(extra_globals or {})
-    d = dict(name=name, driver='c17_shared_future.cpp', roots=[N[alias], N['fi_dtor']] + list(extra_roots), names=names, types=t, globals=g,
+    d = dict(name=name, driver='c17_shared_future.cpp', roots=[N[alias], N['fi_dtor']] + list(extra_roots), names=names, names_opt=names_opt, types=t, globals=g,
              boundary=BOUNDARY + list(extra_boundary), lib=LIBS, defines=list(DEFINES), spec=['C17/sf_spec.h', 'C17/h_sf.c'], harness='h_' + name,
              enforce=alias, unwind=3, cbmc_flags=['--sat-solver', 'cadical'], solver='sat(cadical, cbmc --sat-solver cadical)', under_contract=[N[alias].strip('^$').replace('\\', '')])
     d.update(kw)
@@ -81,6 +84,27 @@ UNITS = [
          extra_globals={'TI_NOT_READY': '_ZTIN5cocls25value_not_ready_exceptionE', 'TI_CANCELED': '_ZTIN5cocls24await_canceled_exceptionE'}),
     unit('wait', 'sf_wait', uses=('sp_arrow', 'fut_wait'), extra_types=ACCESS_T, extra_boundary=[N['fut_wait']]),
     unit('co_await', 'sf_co_await', uses=('sp_arrow',), extra_types=dict(ACCESS_T, COAW='cocls::co_awaiter<cocls::future<int> >')),
+]
+
+# ---- bounded drive over the real bodies (any order of copy / assign / drop / subscribe / resolve; single thread)
+DRV = ['drv_default', 'drv_ctor_promise', 'drv_get_promise', 'drv_ready', 'drv_value', 'drv_copy_ctor', 'drv_copy_assign', 'drv_dtor', 'drv_resolve',
+       'drv_drop_promise', 'drv_subscribe', 'drv_awaiter_init', 'drv_promise_move']
+SN_RX = r'^cocls::suspend_point<void>::suspend_now\(\)$'
+def drive(name, start, steps, tiers, timeout=900):
+    names = {d: '^%s$' % d for d in DRV}
+    names.update({a: N[a] for a in ('fi_dtor', 'fi_ctor_default', 'fi_ctor_pfn', 'tr_invoke')})
+    names_opt = {a: N[a] for a in ('sp_arrow', 'sp_make_default', 'sp_make_pfn', 'aw_subscribe', 'env_promise_fn')}
+    names_opt['sp_suspend_now'] = SN_RX
+    t = dict(TYPES); t.update(ACCESS_T); t.update(MAKE_T); t.update(PFN='c17_promise_fn', CAW='c17_counting_awaiter')
+    return dict(name=name, driver='c17_shared_future.cpp', roots=['^%s$' % d for d in DRV] + [N['fi_dtor'], N['fi_ctor_default'], N['fi_ctor_pfn']],
+                names=names, names_opt=names_opt, types=t, globals=GLOBALS, boundary=BOUNDARY[:3] + [SN_RX], lib=LIBS,
+                defines=DEFINES + ['C17_DRIVE 1', 'DRIVE_START %d' % start, 'DRIVE_STEPS %d' % steps], spec=['C17/sf_spec.h', 'C17/h_drive.c'], harness='h_drive',
+                unwind=max(steps, 4) + 2, object_bits=10, kind='bounded', tiers=tiers, timeout=timeout, cbmc_flags=['--sat-solver', 'cadical'], solver='sat(cadical)',
+                bounded='one shared state, <= 3 handles, <= 2 function awaiters, every sequence of %d operations (copy / assign / drop / subscribe / resolve with value / break the promise) followed by completion; single thread; creation by %s' % (steps, 'shared_future(Fn(promise))' if start == 1 else 'default construction + get_promise()'),
+                under_contract=[])
+UNITS += [
+    drive('drive_ctor', 1, 4, ['quick']), drive('drive_get_promise', 0, 4, ['quick']),
+    drive('drive_ctor_6', 1, 6, ['thorough'], 3000), drive('drive_get_promise_6', 0, 6, ['thorough'], 3000),
 ]
 
 META = dict(
